@@ -23,8 +23,9 @@ import subprocess
 from concurrent.futures import ThreadPoolExecutor
 from . import common
 from . import c01_corpus as corpus
+from . import c01_lib
 
-LEAN_TARGETS = ["TsrunVerif.Props.C01", "TsrunVerif.Props.C01Parse"]
+LEAN_TARGETS = ["TsrunVerif.Props.C01", "TsrunVerif.Props.C01Parse", "TsrunVerif.Props.C01Lib"]
 THEOREMS = ["TsrunVerif.Ops." + t for t in [
     "numEq_symm", "strictEq_symm", "looseEq_symm", "looseEq_of_strictEq", "nan_never_equal", "null_looseEq_iff", "typeOf_closed",
     "plus_string_left", "plus_string_right", "add_comm", "neg_neg", "lt_irrefl", "nan_relational_false", "not_not",
@@ -34,8 +35,15 @@ THEOREMS = ["TsrunVerif.Ops." + t for t in [
         "finally_normal_keeps_pending", "finally_abrupt_overrides", "catch_binds_thrown", "loop_break_own_label",
         "loop_break_foreign_label", "tdz_shadows_outer"]] + \
     ["TsrunVerif.Pratt." + t for t in [
-        "parse_wellformed", "parse_minimal_parens", "parse_order_iso", "table_is_spec", "gen_spec_order", "gen_spec_assoc", "gen_parses_as_spec"]]
+        "parse_wellformed", "parse_minimal_parens", "parse_order_iso", "table_is_spec", "gen_spec_order", "gen_spec_assoc", "gen_parses_as_spec"]] + \
+    ["TsrunVerif.Lib." + t for t in [
+        "relIndex_le", "relIndex_neg", "relIndex_nonneg", "slice_contiguous", "slice_length", "slice_all", "slice_last", "slice_empty_of_end_le_start", "slice_far",
+        "at_nonneg", "at_neg", "splice_partition", "splice_lengths", "splice_start_only", "splice_insert", "fill_length", "fill_get", "copyWithin_length",
+        "with_isSome_iff", "with_length", "findFrom_spec", "indexOf_first", "indexOf_from_beyond", "substring_swap", "substring_neg", "padStart_length", "repeat_spec"]]
 ASSUMPTIONS = [
+    "M-Lib composes ToIntegerOrInfinity, the relative index and the clamp exactly as ECMA-262 does for slice, splice/toSpliced, at, with, fill, copyWithin, indexOf/includes, lastIndexOf, substring, substr, String slice, charAt, "
+    "padStart/padEnd and repeat over lists of integers / ASCII texts; arguments are abstracted to absent, NaN, +-Infinity, integers and non-integral numbers (k + 0.5); it agrees with the reference engine on all 92740 enumerated calls; "
+    "callbacks, holes, species, array-likes and non-ASCII strings are outside it (covered by the reference-engine differential)",
     "M-Pratt transcribes parse_binary_expression / parse_unary_expression (binary and logical operators, prefix operators, parentheses) over abstract tokens; the operator table, the loop's break test, the next_prec rule and the logical/unary "
     "mappings are re-extracted from src/parser.rs on every run (Gen/Precedence.lean). ECMA-262's early errors for `a ?? b || c` and `-a ** b` (tsrun accepts both: a superset, outside 'well-formed programs') are excluded from the specification comparison; "
     "`a < b > (c)` (TypeScript type arguments, C03) and call/regex/assertion positions are outside the fragment; conditional, assignment, comma, postfix and member/call levels are covered by the reference-engine differential only",
@@ -569,6 +577,40 @@ def part_grammar(ctx, ref):
                      % (len(cases), len(bad), json.dumps(hist, sort_keys=True), len(forms)))
 
 
+def part_lib_model(ctx, ref):
+    """CORR / PROP: M-Lib (index arithmetic of the array and string built-ins) == tsrun == reference engine,
+    enumerated over every list up to length 4-5 and the boundary argument set"""
+    cs = c01_lib.cases(ctx.rng, ctx.tier)
+    model = common.driver(["lib"], [m for m, _ in cs])
+    exprs = [js for _, js in cs]
+    got = eval_exprs(run_tsrun, exprs, size=200)
+    refv = eval_exprs(lambda ps: run_node(ref.node, ps), exprs, size=200) if ref.node else [None] * len(exprs)
+    fams = {}
+
+    def plain(v):
+        # the in-program printer shows a string as s:<JSON text>
+        if v is not None and v.startswith("s:"):
+            try:
+                return json.loads(v[2:])
+            except ValueError:
+                return v
+        return v
+    for (m, js), mo, g, r in zip(cs, model, got, refv):
+        ctx.cov["evaluations"] += 1
+        ctx.cov["traces_validated_against_impl"] += 1
+        fams[m.split("\t")[0]] = fams.get(m.split("\t")[0], 0) + 1
+        if mo == "bad-case":
+            ctx.corr_fail("M-Lib driver rejected a generated case", m, mo, g)
+            continue
+        if r is not None and plain(r) != mo:
+            ctx.corr_fail("M-Lib differs from the reference engine (the model is wrong)", {"case": m, "expr": js}, mo, plain(r))
+            continue
+        if plain(g) != mo:
+            ctx.prop_fail("library: tsrun differs from M-Lib (and the reference engine) on index arithmetic", {"expr": js, "tsrun": plain(g), "ref": mo, "model_case": m})
+    ctx.cov["distinct_nontrivial"] += len(set(model))
+    ctx.notes.append("lib model: %d calls (%s)" % (len(cs), json.dumps(fams, sort_keys=True)))
+
+
 def pre_proof(ctx):
     rc, out = common.sh([os.path.join(common.ROOT, "bin", "extract")])
     ctx.notes.append("bin/extract: " + out.strip())
@@ -584,6 +626,7 @@ def run(ctx):
     part_ops(ctx, ref)
     part_ctl(ctx, ref)
     part_grammar(ctx, ref)
+    part_lib_model(ctx, ref)
     part_operators(ctx, ref)
     part_library(ctx, ref)
     part_forms(ctx, ref)
